@@ -43,6 +43,34 @@ pub fn cells(tier: Tier) -> Vec<CellPlan> {
     v.push(plan(ticks_3c("C04", 0, q), 1, 2.0));
     // ... with the clients' update ticks on both sides of a varint size boundary (127 | 128)
     v.push(plan(ticks_3c("C04", 125, q), 1, 1.0));
+    // The first running frame after a (re)start, with a client accepted and an event emitted
+    // before it, on a frame without a tick.
+    {
+        let mut cfg = Cfg::default();
+        cfg.events = true;
+        let c = EvCell {
+            name: "c04-first-running-frame".into(),
+            property: "C04",
+            cfg,
+            connect_at_start: vec![0],
+            init: vec![Op::Spawn(0, (1 << TA) | (1 << TB))],
+            alphabet: vec![
+                EvOp::Nop,
+                EvOp::StopServer,
+                EvOp::StartServerWith(0),
+                EvOp::StartServerWithEmit(0),
+                EvOp::World(Op::Spawn(1, 1 << TA)),
+                EvOp::EmitS(SK::E1, Mode::Broadcast, None),
+                EvOp::EmitS(SK::EM, Mode::Broadcast, Some(0)),
+            ],
+            rounds: if q { 4 } else { 5 },
+            tick_choice: true,
+            env: EvEnv { hold_updates: 0, hold_events: false, reorder: false, drop_unreliable: false, hold_client_events: false, hold_mutations: false, hold_acks: false, update_latency: 0, update_batch: 0 },
+            oracles: EvOracles { c04: true, c05: true, ..Default::default() },
+            closure_rounds: 5,
+        };
+        v.push(plan(c, 0, 1.0));
+    }
     // Update channel one and two rounds behind the event channels by default.
     for lat in [1u32, 2] {
         let mut cfg = Cfg::default();
